@@ -22,7 +22,7 @@ No Mathlib.
 namespace BiotiteModel.C09
 open BiotiteModel BiotiteModel.C08
 
-inductive Dir where
+inductive XDir where
   | both | upstream | downstream
   deriving DecidableEq, Repr
 
@@ -63,7 +63,7 @@ def bandOk (band : Option (Int × Int)) (aln : Aln) : Bool :=
   | none => true
   | some (d1, d2) => aln.all (inBandCol (min d1 d2) (max d1 d2))
 
-def seedOk (seed : Option (Nat × Nat)) (dir : Dir) (aln : Aln) : Bool :=
+def seedOk (seed : Option (Nat × Nat)) (dir : XDir) (aln : Aln) : Bool :=
   match seed with
   | none => true
   | some (si, sj) =>
@@ -74,7 +74,7 @@ def seedOk (seed : Option (Nat × Nat)) (dir : Dir) (aln : Aln) : Bool :=
      | .downstream => aln.head? == some (.both si sj))
 
 def checkAln (a b : Seq) (M : Mat) (gap : Gap) (mode : Mode) (band : Option (Int × Int))
-    (seed : Option (Nat × Nat)) (dir : Dir) (aln : Aln) (sc : Int) : Bool :=
+    (seed : Option (Nat × Nat)) (dir : XDir) (aln : Aln) (sc : Int) : Bool :=
   validB .local a b aln
   && decide (rescored mode gap M a b aln = sc)
   && (match mode, gap with
@@ -89,7 +89,7 @@ def checkAln (a b : Seq) (M : Mat) (gap : Gap) (mode : Mode) (band : Option (Int
 
 /-- `mode` is `.semi` for `align_banded(local=False)` and `.local` for everything else. -/
 def checkResult (a b : Seq) (M : Mat) (gap : Gap) (mode : Mode) (band : Option (Int × Int))
-    (seed : Option (Nat × Nat)) (dir : Dir) (trace : List (Int × Int)) (sc : Int) : Bool :=
+    (seed : Option (Nat × Nat)) (dir : XDir) (trace : List (Int × Int)) (sc : Int) : Bool :=
   match traceToAln trace with
   | some aln => checkAln a b M gap mode band seed dir aln sc
   | none => false
@@ -237,17 +237,17 @@ def xdropExtend (thr : Int) (scores : List Int) : Int × Nat :=
 /-- substitution scores of `x[k]` against `y[k]` for the common length -/
 def diagScores (M : Mat) (x y : Seq) : List Int := (x.zip y).map fun p => M p.1 p.2
 
-def dirUp : Dir → Bool
+def dirUp : XDir → Bool
   | .downstream => false
   | _ => true
 
-def dirDown : Dir → Bool
+def dirDown : XDir → Bool
   | .upstream => false
   | _ => true
 
 /-- `align_local_ungapped`: (score, first index offset `start_offset` as a length, number of columns behind the
 seed).  The score-only call returns the same `total_score` (it only skips building the trace). -/
-def ungapped (a b : Seq) (M : Mat) (seed : Int × Int) (thr : Int) (dir : Dir) : Except Err (Int × Nat × Nat) :=
+def ungapped (a b : Seq) (M : Mat) (seed : Int × Int) (thr : Int) (dir : XDir) : Except Err (Int × Nat × Nat) :=
   if thr < 0 then .error .valueError else
   if seed.1 < 0 ∨ seed.2 < 0 then .error .indexError else
   let si := seed.1.toNat
@@ -258,7 +258,7 @@ def ungapped (a b : Seq) (M : Mat) (seed : Int × Int) (thr : Int) (dir : Dir) :
   let down := if dirDown dir then xdropExtend thr (diagScores M (a.drop (si + 1)) (b.drop (sj + 1))) else (0, 0)
   .ok (up.1 + down.1 + M (a.getD si 0) (b.getD sj 0), up.2, down.2)
 
-def ungappedScore (a b : Seq) (M : Mat) (seed : Int × Int) (thr : Int) (dir : Dir) : Except Err Int :=
+def ungappedScore (a b : Seq) (M : Mat) (seed : Int × Int) (thr : Int) (dir : XDir) : Except Err Int :=
   (ungapped a b M seed thr dir).map (·.1)
 
 /-- the trace `align_local_ungapped` returns -/
@@ -452,7 +452,7 @@ def regionAlign (scoreOnly : Bool) (M : Mat) (gap : Gap) (thr : Int) (x y : Seq)
 
 /-- `align_local_gapped(...)`: the common score of the returned alignments (`scoreOnly = false`) or the value
 of the `score_only=True` call. -/
-def gappedScore (scoreOnly : Bool) (a b : Seq) (M : Mat) (gap : Gap) (seed : Int × Int) (thr : Int) (dir : Dir)
+def gappedScore (scoreOnly : Bool) (a b : Seq) (M : Mat) (gap : Gap) (seed : Int × Int) (thr : Int) (dir : XDir)
     (maxNumber : Int) (mts : Option Int) (initSize initOff growF : Nat) : Except Err Int :=
   if gap.go ≥ 0 ∨ gap.ge ≥ 0 then .error .valueError else
   if maxNumber < 1 then .error .valueError else
